@@ -75,6 +75,7 @@ type pAnn struct {
 	Validate string `json:"validate,omitempty"`
 	Desc     string `json:"desc,omitempty"`
 	RawProps string `json:"rawProps,omitempty"`
+	Extra    string `json:"extra,omitempty"` // further "key: value" text inside the properties object (properties the annotation does not know)
 }
 
 type pErrResp struct {
@@ -101,6 +102,7 @@ type pMethod struct {
 	Extra      []string   `json:"extra,omitempty"`
 	ValueRecv  bool       `json:"valueRecv,omitempty"` // func (c AController) instead of (c *AController)
 	Ptag       string     `json:"ptag,omitempty"`      // which perturbation(s) produced this method (label only)
+	VerbProps  string     `json:"verbProps,omitempty"` // "key: value" text of a properties object on @Method (which takes none)
 	Grouped    bool       `json:"grouped,omitempty"`   // adjacent parameters of one type are written as an identifier list: (a, b, c string, d int)
 }
 
@@ -216,6 +218,9 @@ func annLine(a pAnn) string {
 	}
 	if a.Validate != "" {
 		props = append(props, fmt.Sprintf("validate: %q", a.Validate))
+	}
+	if a.Extra != "" {
+		props = append(props, a.Extra)
 	}
 	s := "// @" + a.Kind + "(" + a.Value
 	if a.RawProps != "" {
@@ -372,7 +377,11 @@ func writeProjectP(dir string, pc *pCase, repo string, hook bodyHook, prefix str
 		fb := get(c.Pkg, m.File)
 		lines := commentLines(m.Desc)
 		if m.Verb != "" {
-			lines = append(lines, "// @Method("+m.Verb+")")
+			if m.VerbProps != "" {
+				lines = append(lines, "// @Method("+m.Verb+", {"+m.VerbProps+"})")
+			} else {
+				lines = append(lines, "// @Method("+m.Verb+")")
+			}
 		}
 		if m.Route != "" {
 			lines = append(lines, "// @Route("+m.Route+")")
